@@ -245,6 +245,21 @@ EXTRA9 = {
     "C20": ("R-GUARD decision tables of join_linked_range", "Also decides which quotations a newly integrated item joins."),
 }
 
+EXTRA10 = {
+    "C01": ("delete-set mechanism (running cursor of the v2 delete-set codec)", "Also decides the v2 delete-set cursor under this property."),
+    "C02": ("R-PROV+R-GUARD prune_pending forwards both stashes", "Also decides what prune_pending hands to its caller."),
+    "C06": ("R-PROV upper bound of the block export (defect #17, fixed)", "Also decides that the answer to a state vector reaches to the end of each block list."),
+    "C07": ("R-PROV upper bound of the block export (defect #17, fixed)", "Also decides that update events carry blocks integrated behind a gap."),
+    "C11": ("lookup mechanism (Item::content_len identity)", "Also decides the unit in which deleted lengths are measured."),
+    "C12": ("R-GUARD one-shot state of the acquire futures", "Also decides that a pending poll does not consume the transaction's origin."),
+    "C14": ("precedence of the JSON scope keys", "Also decides the order item / tname / type of the JSON reader."),
+    "C16": ("R-OWN who may append with push_coalesced; R-PROV delegation table of the thin id-set layer", "Also decides who may use the append-only helper and what the thin layer hands on."),
+    "C17": ("R-SCAN whole renderings end on exhaustion; R-PROV read entry points", "Also decides the loop exits of the whole-collection renderings."),
+    "C18": ("R-PROV public wrappers of the awareness merge hand the update on untouched", "Also decides that no wrapper filters an awareness update."),
+    "C19": ("R-TABLE event cells per tag and position", "Also decides which value of a change lands in which C field."),
+    "C20": ("predicate link_is_single; R-PROV weak string rendering", "Also decides when a link is encoded as a single element."),
+}
+
 PENDING = {
 }
 
@@ -253,7 +268,7 @@ def main():
     checks = []
     for pid in sorted(CHECKS):
         tech, text, ref = CHECKS[pid]
-        for ex in (EXTRA, EXTRA2, EXTRA3, EXTRA4, EXTRA5, EXTRA6, EXTRA7, EXTRA8, EXTRA9):
+        for ex in (EXTRA, EXTRA2, EXTRA3, EXTRA4, EXTRA5, EXTRA6, EXTRA7, EXTRA8, EXTRA9, EXTRA10):
             if pid in ex:
                 tech = tech + "; " + ex[pid][0]
                 text = text + " " + ex[pid][1]
